@@ -20,8 +20,21 @@ D2_TRIAGE = {
 
 
 def edge_appends(fn):
-    return [c for c in walk_no_nested(fn.node) if isinstance(c, ast.Call) and call_name(c) == 'append'
-            and is_self_attr(c.func.value, fn.self_name, 'edges')]
+    """Calls that append one edge to self.edges: `self.edges.append(e)` itself, or a call of a private helper of the class
+    that appends its first parameter exactly once and unconditionally (then call.args[0] is the edge as well)."""
+    out = [c for c in walk_no_nested(fn.node) if isinstance(c, ast.Call) and call_name(c) == 'append'
+           and is_self_attr(c.func.value, fn.self_name, 'edges')]
+    if fn.cls is not None:
+        for c in walk_no_nested(fn.node):
+            if isinstance(c, ast.Call) and is_self_attr(c.func, fn.self_name) and c.args:
+                h = fn.cls.lookup(c.func.attr)
+                if h is None or h is fn or h.kind != 'method' or len(h.params) < 2:
+                    continue
+                happ = [x for x in ast.walk(h.node) if isinstance(x, ast.Call) and call_name(x) == 'append' and is_self_attr(x.func.value, h.self_name, 'edges')]
+                if len(happ) == 1 and happ[0]._parent in h.body() and happ[0].args and isinstance(happ[0].args[0], ast.Name) \
+                        and happ[0].args[0].id == h.params[1]:
+                    out.append(c)
+    return out
 
 
 def loop_of(node, fn):
@@ -71,6 +84,24 @@ def d1(ctx, rep):
     tv = prog.method(VINE, 'train_vine')
     loops = [n for n in tv.body() if isinstance(n, ast.For)]
     apps = [c for c in walk_no_nested(tv.node) if isinstance(c, ast.Call) and call_name(c) == 'append' and is_self_attr(c.func.value, tv.self_name, 'trees')]
+    # a private helper that appends exactly one tree, unconditionally, counts as an append at its call site
+    vine = prog.cls(VINE)
+    opaque = False
+    for c in walk_no_nested(tv.node):
+        if isinstance(c, ast.Call) and is_self_attr(c.func, tv.self_name):
+            h = vine.lookup(c.func.attr)
+            if h is None or h is tv or h.kind != 'method':
+                continue
+            happ = [x for x in ast.walk(h.node) if isinstance(x, ast.Call) and call_name(x) == 'append' and is_self_attr(x.func.value, h.self_name, 'trees')]
+            if not happ:
+                continue
+            if len(happ) == 1 and stmt_of(happ[0]) in h.body():
+                apps.append(c)
+            else:
+                opaque = True
+    if opaque:
+        rep.undecided('D1.trees', tv, tv.node.name, 'trees are appended by a helper under conditions or in a loop: the count is not derived', construct='one tree per iteration')
+        return
     if len(loops) != 1:
         rep.undecided('D1.trees', tv, tv.node.name, 'tree loop not recognised', construct='tree loop')
         return
@@ -129,6 +160,9 @@ def d2_d3(ctx, rep):
         if fn is None:
             raise AnalysisError(f'anchor vanished: {clsn}.{meth}')
         apps = edge_appends(fn)
+        if len(apps) == 0:
+            rep.undecided('D2.edges', fn, fn.node.name, f'no append to self.edges found in {clsn}.{meth} or in a one-append helper it calls', construct=f'{clsn}.{meth} appends')
+            continue
         if len(apps) != 1:
             rep.bad('D2.edges', fn, fn.node.name, f'{len(apps)} edge appends in {clsn}.{meth}', construct=f'{clsn}.{meth} appends')
             continue
@@ -145,8 +179,11 @@ def d2_d3(ctx, rep):
                       construct=f'{clsn}.{meth} edge count')
             kv = lp.target.id if isinstance(lp.target, ast.Name) else None
             idx = _edge_index_arg(prog, fn, ap)
-            rep.check('D3.index', fn, ap, isinstance(idx, ast.Name) and idx.id == kv, f'{clsn}.{meth}: edge index = loop counter',
-                      f'{clsn}.{meth}: the edge index is {short(idx)}, not its position', construct=f'{clsn}.{meth} edge index')
+            if idx is None:
+                rep.undecided('D3.index', fn, ap, f'{clsn}.{meth}: the index given to the new edge is not derived', construct=f'{clsn}.{meth} edge index')
+            else:
+                rep.check('D3.index', fn, ap, isinstance(idx, ast.Name) and idx.id == kv, f'{clsn}.{meth}: edge index = loop counter',
+                          f'{clsn}.{meth}: the edge index is {short(idx)}, not its position', construct=f'{clsn}.{meth} edge index')
         elif isinstance(lp, ast.While):
             # while len(S) != self.n_nodes with |S| = 1 initially; each iteration that appends also grows S by one
             t = lp.test
@@ -172,8 +209,11 @@ def d2_d3(ctx, rep):
             idx = _edge_index_arg(prog, fn, ap)
             nf = NF(prog, fn)
             want = nf.nf(ast.parse(f'len({sname}) - 1', mode='eval').body) if sname else None
-            rep.check('D3.index', fn, ap, idx is not None and nf.nf(idx) == want, f'{clsn}.{meth}: edge index = len({sname}) - 1',
-                      f'{clsn}.{meth}: the edge index is {short(idx)}, not its position', construct=f'{clsn}.{meth} edge index')
+            if idx is None or want is None:
+                rep.undecided('D3.index', fn, ap, f'{clsn}.{meth}: the index given to the new edge is not derived', construct=f'{clsn}.{meth} edge index')
+            else:
+                rep.check('D3.index', fn, ap, nf.nf(idx) == want, f'{clsn}.{meth}: edge index = len({sname}) - 1',
+                          f'{clsn}.{meth}: the edge index is {short(idx)}, not its position', construct=f'{clsn}.{meth} edge index')
             # the new node is added after the edge is indexed
             if main_adds:
                 rep.check('D3.index', fn, main_adds[0], stmt_of(main_adds[0]).lineno > st.lineno, 'the node set grows after the edge was indexed',
@@ -185,7 +225,31 @@ def d2_d3(ctx, rep):
 def _edge_index_arg(prog, fn, ap):
     """First argument of the Edge(...) / Edge.get_child_edge(...) call that creates the appended edge."""
     e = ap.args[0] if ap.args else None
+
+    def index_of(call, owner, depth=0):
+        nm = prog.resolve(owner.module, call.func) or ''
+        if nm.endswith('tree.Edge') or nm.endswith('Edge.get_child_edge'):
+            return call.args[0] if call.args else None
+        # a private helper whose returned edge is created with its own first parameter as index
+        if depth < 2 and isinstance(call.func, ast.Attribute) and owner.cls is not None and isinstance(call.func.value, ast.Name) \
+                and call.func.value.id in (owner.self_name, 'cls', owner.cls.name):
+            h = owner.cls.lookup(call.func.attr)
+            if h is not None and h.name.startswith('_'):
+                ps = h.params[1:] if h.kind in ('method', 'classmethod') else h.params
+                for r in walk_no_nested(h.node):
+                    if isinstance(r, ast.Return) and isinstance(r.value, ast.Call):
+                        inner = index_of(r.value, h, depth + 1)
+                        if isinstance(inner, ast.Name) and ps and inner.id == ps[0] and call.args:
+                            return call.args[0]
+        return None
+    if isinstance(e, ast.Call):
+        return index_of(e, fn)
     if isinstance(e, ast.Name):
+        for s in walk_no_nested(fn.node):
+            if isinstance(s, ast.Assign) and isinstance(s.targets[0], ast.Name) and s.targets[0].id == e.id and isinstance(s.value, ast.Call):
+                r = index_of(s.value, fn)
+                if r is not None:
+                    return r
         for s in walk_no_nested(fn.node):
             if isinstance(s, ast.Assign) and isinstance(s.targets[0], ast.Name) and s.targets[0].id == e.id and isinstance(s.value, ast.Call):
                 nm = prog.resolve(fn.module, s.value.func) or ''
@@ -199,37 +263,46 @@ def d4(ctx, rep):
     edge = prog.cls(TREE + 'Edge')
     ie = edge.methods['_identify_eds_ing']
     p1, p2 = ie.params[0], ie.params[1]
-    sets = {}
-    for s in walk_no_nested(ie.node):
-        if isinstance(s, ast.Assign) and isinstance(s.targets[0], ast.Name) and isinstance(s.value, ast.Set):
-            owner = {x.value.id for x in ast.walk(s.value) if isinstance(x, ast.Attribute) and isinstance(x.value, ast.Name)}
-            attrs = {x.attr for x in ast.walk(s.value) if isinstance(x, ast.Attribute)}
-            sets[s.targets[0].id] = [owner, attrs, False]
-    for c in walk_no_nested(ie.node):
-        if isinstance(c, ast.Call) and call_name(c) in ('update', 'union') and isinstance(c.func.value, ast.Name) and c.func.value.id in sets \
-                and c.args and isinstance(c.args[0], ast.Attribute) and c.args[0].attr == 'D' and isinstance(c.args[0].value, ast.Name):
-            if {c.args[0].value.id} == sets[c.func.value.id][0]:
-                sets[c.func.value.id][2] = True
-    good_sets = len(sets) == 2 and all(v[1] == {'L', 'R'} and v[2] and len(v[0]) == 1 for v in sets.values()) \
-        and {next(iter(v[0])) for v in sets.values()} == {p1, p2}
-    rep.check('D4.child', ie, ie.node.name, good_sets, 'A = {first.L, first.R} | first.D and B likewise',
-              'the variable sets of the two parent edges are not {L, R} | D of each parent', construct='variable sets')
-    names = list(sets)
+    from .. import setkind as SK
+    env = SK.Env(ie, {p1: p1, p2: p2})
+    A1, A2 = SK.nodes_of(p1), SK.nodes_of(p2)
     rets = [n for n in walk_no_nested(ie.node) if isinstance(n, ast.Return) and isinstance(n.value, ast.Tuple)]
-    if rets and len(rets[0].value.elts) == 3 and len(names) == 2:
+    if not rets or len(rets[0].value.elts) != 3:
+        rep.undecided('D4.child', ie, ie.node.name, 'return (left, right, conditioning set) not recognised', construct='variable sets')
+    else:
         l, r, dep = rets[0].value.elts
-        depd = single_def(ie.node, dep.id) if isinstance(dep, ast.Name) else dep
-        ok_dep = isinstance(depd, ast.BinOp) and isinstance(depd.op, ast.BitAnd) and {getattr(depd.left, 'id', None), getattr(depd.right, 'id', None)} == set(names)
-        rep.check('D4.child', ie, depd if isinstance(depd, ast.AST) else rets[0], ok_dep, 'conditioning set = A & B',
-                  f'the conditioning set is {short(depd)}, not the intersection of the parents\' variable sets', construct='conditioning set')
+        depv = SK.evaluate(ctx, env, dep)
         pair = None
         for s in walk_no_nested(ie.node):
             if isinstance(s, ast.Assign) and isinstance(s.targets[0], ast.Tuple) and [getattr(e, 'id', None) for e in s.targets[0].elts] == [getattr(l, 'id', 0), getattr(r, 'id', 1)]:
                 pair = s.value
-        ok_pair = isinstance(pair, ast.Call) and call_name(pair) == 'sorted' and isinstance(pair.args[0], ast.BinOp) and isinstance(pair.args[0].op, ast.BitXor) \
-            and {getattr(pair.args[0].left, 'id', None), getattr(pair.args[0].right, 'id', None)} == set(names)
-        rep.check('D4.child', ie, pair if pair is not None else rets[0], bool(ok_pair), 'conditioned pair = sorted(A ^ B)',
-                  f'the conditioned pair is {short(pair)}, not the sorted symmetric difference', construct='conditioned pair')
+        pairv = None
+        inner = pair
+        while isinstance(inner, ast.Subscript):
+            inner = inner.value
+        if isinstance(inner, ast.Call) and call_name(inner) in ('sorted', 'list', 'tuple') and inner.args:
+            pairv = SK.evaluate(ctx, env, inner.args[0])
+
+        def operands(v, op):
+            return {v[2], v[3]} if isinstance(v, tuple) and v and v[0] == 'op' and v[1] == op and isinstance(v[2], frozenset) and isinstance(v[3], frozenset) else None
+        # the sets that enter A & B and A ^ B are the variable sets {L, R} | D of the two parents
+        seen_sets = (operands(depv, '&') or set()) | (operands(pairv, '^') or set())
+        if not seen_sets:
+            rep.undecided('D4.child', ie, ie.node.name, f'the variable sets of the two parent edges are not derived (conditioning set: {SK.fmt(depv)})', construct='variable sets')
+        else:
+            rep.check('D4.child', ie, ie.node.name, seen_sets == {A1, A2}, 'A = {first.L, first.R} | first.D and B likewise',
+                      'the variable sets of the two parent edges are not {L, R} | D of each parent: ' + ' / '.join(sorted(SK.fmt(x) for x in seen_sets)),
+                      construct='variable sets')
+        if depv is None:
+            rep.undecided('D4.child', ie, rets[0], 'the conditioning set is not derived', construct='conditioning set')
+        else:
+            rep.check('D4.child', ie, rets[0], operands(depv, '&') is not None, 'conditioning set = A & B',
+                      f'the conditioning set is {SK.fmt(depv)}, not the intersection of the parents\' variable sets', construct='conditioning set')
+        if pair is None or pairv is None:
+            rep.undecided('D4.child', ie, rets[0], 'how the conditioned pair is computed is not derived', construct='conditioned pair')
+        else:
+            rep.check('D4.child', ie, pair, operands(pairv, '^') is not None, 'conditioned pair = sorted(A ^ B)',
+                      f'the conditioned pair is sorted({SK.fmt(pairv)}), not the sorted symmetric difference', construct='conditioned pair')
     gc = edge.methods['get_child_edge']
     call = [c for c in walk_no_nested(gc.node) if isinstance(c, ast.Call) and call_name(c) == '_identify_eds_ing']
     mk = [s for s in walk_no_nested(gc.node) if isinstance(s, ast.Assign) and isinstance(s.value, ast.Call) and (prog.resolve(gc.module, s.value.func) or '').endswith('tree.Edge')]
@@ -265,42 +338,32 @@ def d5_d6(ctx, rep):
         l, r = rv.left, rv.comparators[0]
         want = nf.nf(ast.parse(f'{cc.self_name}.level + 1', mode='eval').body)
         size, other = (l, r) if (isinstance(l, ast.Call) and call_name(l) == 'len') else ((r, l) if (isinstance(r, ast.Call) and call_name(r) == 'len') else (None, None))
-        if size is not None:
+        if size is not None and size.args:
             if nf.nf(other) != want:
                 if any(is_self_attr(x, cc.self_name, 'level') for x in ast.walk(other)):
                     verdict = (False, f'the span of the two parent edges is compared with `{short(other)}` instead of level + 1')
             else:
-                # the set that is measured must contain L, R and D of both edges
-                mentioned = set()
-                todo = [size.args[0]]
-                seen_names = set()
-                while todo:
-                    x = todo.pop()
-                    for y in ast.walk(x):
-                        if isinstance(y, ast.Attribute) and isinstance(y.value, ast.Name) and y.value.id in (e1, e2) and y.attr in ('L', 'R', 'D'):
-                            mentioned.add((y.value.id, y.attr))
-                        if isinstance(y, ast.Name) and y.id not in seen_names and y.id not in (e1, e2):
-                            seen_names.add(y.id)
-                            for a in walk_no_nested(cc.node):
-                                if isinstance(a, ast.Assign) and any(isinstance(t, ast.Name) and t.id == y.id for t in a.targets):
-                                    todo.append(a.value)
-                                if isinstance(a, ast.Call) and isinstance(a.func, ast.Attribute) and isinstance(a.func.value, ast.Name) \
-                                        and a.func.value.id == y.id and a.func.attr in ('update', 'add', 'union'):
-                                    todo.extend(a.args)
-                full = {(e, a) for e in (e1, e2) for a in ('L', 'R', 'D')}
-                intersect = any(isinstance(y, ast.BinOp) and isinstance(y.op, (ast.BitAnd, ast.BitXor, ast.Sub)) for y in ast.walk(cc.node)) \
-                    or any(isinstance(y, ast.Call) and call_name(y) in ('intersection', 'difference', 'symmetric_difference') for y in ast.walk(cc.node))
-                if mentioned == full and not intersect:
-                    verdict = (True, '|{L,R} | D of both edges| == level + 1')
-                elif mentioned < full and not intersect:
-                    verdict = (False, f'the measured set leaves out {sorted(full - mentioned)}')
+                from .. import setkind as SK
+                measured = SK.evaluate(ctx, SK.Env(cc, {e1: e1, e2: e2}), size.args[0])
+                full = SK.nodes_of(e1) | SK.nodes_of(e2)
+                if isinstance(measured, frozenset):
+                    if measured == full:
+                        verdict = (True, '|{L,R} | D of both edges| == level + 1')
+                    elif measured < full:
+                        verdict = (False, f'the measured set leaves out {SK.fmt(full - measured)}')
+                    else:
+                        verdict = (False, f'the measured set is {SK.fmt(measured)}')
+                elif measured is not None:
+                    verdict = (False, f'the measured set is {SK.fmt(measured)}, not the union of the variable sets')
     if verdict is None:
         rep.undecided('D5.proximity', cc, rets[0] if rets else cc.node.name, 'form of the proximity test not recognised', construct='regular proximity')
     else:
         rep.check('D5.proximity', cc, rets[0], verdict[0], verdict[1], 'the proximity test is not "the two parent edges span exactly level + 1 variables": ' + verdict[1],
                   construct='regular proximity')
     rk = prog.cls(TREE + 'RegularTree').methods['_build_kth_tree']
-    uses = [c for c in walk_no_nested(rk.node) if isinstance(c, ast.Call) and call_name(c) == '_check_constraint']
+    from ..idioms import private_closure
+    rclo = private_closure(ctx, rk, prog.cls(TREE + 'RegularTree'))
+    uses = [c for g in rclo for c in ast.walk(g.node) if isinstance(c, ast.Call) and call_name(c) == '_check_constraint']
 
     def filters(c):
         for p_ in _ancestors(c, rk.node):
@@ -311,46 +374,87 @@ def d5_d6(ctx, rep):
         return False
     if not uses:
         rep.bad('D5.proximity', rk, rk.node.name, 'candidate pairs of the regular vine are not filtered by the proximity test', construct='regular proximity use')
-    elif any(filters(c) for c in uses):
+    elif any(filters(c) for c in uses) or any(isinstance(p_, (ast.Lambda, ast.FunctionDef)) and p_ is not rk.node for c in uses for p_ in _ancestors(c, None)
+                                              if not any(p_ is g.node for g in rclo)):
         rep.ok('D5.proximity', rk, uses[0], 'candidate pairs are filtered by the proximity test', construct='regular proximity use')
     else:
         rep.undecided('D5.proximity', rk, uses[0], 'how the proximity test filters the candidates was not recognised', construct='regular proximity use')
     # direct kth: edges[k], edges[k + 1]; center kth: edges[anchor], edges[right]
+    def parent_pair(fn):
+        """(call, a, b, loop): the two parent edges handed to sort_edge([...]) / a helper(k, edges[i], edges[j]) inside a loop."""
+        for c in walk_no_nested(fn.node):
+            if not isinstance(c, ast.Call):
+                continue
+            cand = None
+            if call_name(c) == 'sort_edge' and c.args and isinstance(c.args[0], (ast.List, ast.Tuple)) and len(c.args[0].elts) == 2:
+                cand = c.args[0].elts
+            else:
+                subs = [a for a in c.args if isinstance(a, ast.Subscript)]
+                if len(subs) == 2 and ast.dump(subs[0].value) == ast.dump(subs[1].value) and call_name(c) not in ('append',):
+                    cand = subs
+            if cand and all(isinstance(x, ast.Subscript) for x in cand) and loop_of(c, fn) is not None:
+                return c, cand[0], cand[1], loop_of(c, fn)
+        return None
+
     dk = prog.cls(TREE + 'DirectTree').methods['_build_kth_tree']
-    se = [c for c in walk_no_nested(dk.node) if isinstance(c, ast.Call) and call_name(c) == 'sort_edge']
-    ok = False
-    if se and isinstance(se[0].args[0], (ast.List, ast.Tuple)) and len(se[0].args[0].elts) == 2:
-        a, b = se[0].args[0].elts
-        lp = loop_of(se[0], dk)
+    pp = parent_pair(dk)
+    if pp is None:
+        rep.undecided('D5.proximity', dk, dk.node.name, 'which two edges of the previous tree a child joins was not recognised', construct='direct proximity')
+    else:
+        c0, a, b, lp = pp
         kv = lp.target.id if isinstance(lp, ast.For) and isinstance(lp.target, ast.Name) else None
         nf2 = NF(prog, dk)
-        ok = isinstance(a, ast.Subscript) and isinstance(b, ast.Subscript) and ast.dump(a.value) == ast.dump(b.value) \
-            and isinstance(a.slice, ast.Name) and a.slice.id == kv and nf2.nf(b.slice) == nf2.nf(ast.parse(f'{kv} + 1', mode='eval').body)
-    rep.check('D5.proximity', dk, se[0] if se else dk.node.name, ok, 'direct: child k joins edges k and k + 1 of the previous path',
-              'the direct vine does not join consecutive edges of the previous path', construct='direct proximity')
+        simple = lambda e: all(isinstance(x, (ast.Constant, ast.BinOp, ast.Add, ast.Sub, ast.operator, ast.Load)) or (isinstance(x, ast.Name) and x.id == kv)
+                               for x in ast.walk(e))
+        if kv is None or not (simple(a.slice) and simple(b.slice)):
+            rep.undecided('D5.proximity', dk, c0, 'index expressions of the two parent edges not recognised', construct='direct proximity')
+        else:
+            ok = ast.dump(a.value) == ast.dump(b.value) and isinstance(a.slice, ast.Name) and a.slice.id == kv \
+                and nf2.nf(b.slice) == nf2.nf(ast.parse(f'{kv} + 1', mode='eval').body)
+            rep.check('D5.proximity', dk, c0, ok, 'direct: child k joins edges k and k + 1 of the previous path',
+                      'the direct vine does not join consecutive edges of the previous path', construct='direct proximity')
     ck = prog.cls(TREE + 'CenterTree').methods['_build_kth_tree']
-    se = [c for c in walk_no_nested(ck.node) if isinstance(c, ast.Call) and call_name(c) == 'sort_edge']
-    ok = False
-    if se and isinstance(se[0].args[0], (ast.List, ast.Tuple)) and len(se[0].args[0].elts) == 2:
-        a, b = se[0].args[0].elts
-        lp = loop_of(se[0], ck)
-        inv = isinstance(a, ast.Subscript) and isinstance(a.slice, ast.Name) and not _assigned_in_loop(lp, a.slice.id)
-        var = isinstance(b, ast.Subscript) and isinstance(b.slice, ast.Name) and _assigned_in_loop(lp, b.slice.id)
-        ok = inv and var and ast.dump(a.value) == ast.dump(b.value)
-    rep.check('D6.shape', ck, se[0] if se else ck.node.name, ok, 'center k-th tree: every child joins the loop-invariant anchor edge with another edge (star)',
-              'the k-th center tree does not join one fixed anchor edge with every other edge', construct='center k-th star')
+    pp = parent_pair(ck)
+    if pp is None:
+        rep.undecided('D6.shape', ck, ck.node.name, 'which two edges of the previous tree a child joins was not recognised', construct='center k-th star')
+    else:
+        c0, a, b, lp = pp
+        if not (isinstance(a.slice, ast.Name) and isinstance(b.slice, ast.Name)):
+            rep.undecided('D6.shape', ck, c0, 'index expressions of the two parent edges not recognised', construct='center k-th star')
+        else:
+            inv = not _assigned_in_loop(lp, a.slice.id)
+            var = _assigned_in_loop(lp, b.slice.id)
+            ok = inv and var and ast.dump(a.value) == ast.dump(b.value)
+            rep.check('D6.shape', ck, c0, ok, 'center k-th tree: every child joins the loop-invariant anchor edge with another edge (star)',
+                      'the k-th center tree does not join one fixed anchor edge with every other edge', construct='center k-th star')
     cf = prog.cls(TREE + 'CenterTree').methods['_build_first_tree']
-    mk = [s for s in walk_no_nested(cf.node) if isinstance(s, ast.Assign) and isinstance(s.value, ast.Call) and (prog.resolve(cf.module, s.value.func) or '').endswith('tree.Edge')]
-    ok = bool(mk) and len(mk[0].value.args) >= 3 and isinstance(const_value(mk[0].value.args[1]), int)
-    rep.check('D6.shape', cf, mk[0] if mk else cf.node.name, ok, 'center first tree: every edge contains the same constant node (star)',
-              'the first center tree is not a star around one fixed node', construct='center first star')
+    mk = [c for c in walk_no_nested(cf.node) if isinstance(c, ast.Call) and (prog.resolve(cf.module, c.func) or '').endswith('tree.Edge') and len(c.args) >= 3]
+    if not mk:
+        # a helper(index, first, second) that creates the edge of two variables
+        mk = [c for c in walk_no_nested(cf.node) if isinstance(c, ast.Call) and is_self_attr(c.func, cf.self_name) and len(c.args) == 3
+              and loop_of(c, cf) is not None]
+    if not mk:
+        rep.undecided('D6.shape', cf, cf.node.name, 'construction of the edges of the first center tree not recognised', construct='center first star')
+    else:
+        n1, n2 = mk[0].args[1], mk[0].args[2]
+        lp1 = loop_of(mk[0], cf)
+        fixed = lambda e: isinstance(const_value(e), int) or (isinstance(e, ast.Name) and lp1 is not None and not _assigned_in_loop(lp1, e.id))
+        if fixed(n1) != fixed(n2):
+            rep.ok('D6.shape', cf, mk[0], 'center first tree: every edge contains the same fixed node (star)', construct='center first star')
+        elif not fixed(n1) and not fixed(n2) and all(isinstance(e, (ast.Name, ast.Constant)) for e in (n1, n2)):
+            rep.bad('D6.shape', cf, mk[0], 'the first center tree is not a star around one fixed node', construct='center first star')
+        else:
+            rep.undecided('D6.shape', cf, mk[0], 'the two nodes of an edge of the first center tree are not recognised', construct='center first star')
     df = prog.cls(TREE + 'DirectTree').methods['_build_first_tree']
     mk = [s for s in walk_no_nested(df.node) if isinstance(s, ast.Assign) and isinstance(s.value, ast.Call) and (prog.resolve(df.module, s.value.func) or '').endswith('tree.Edge')]
     ok = False
+    srt = []
+    a = b = None
     if mk:
         lp = loop_of(mk[0], df)
         kv = lp.target.id if isinstance(lp, ast.For) and isinstance(lp.target, ast.Name) else None
         srt = [s for s in lp.body if isinstance(s, ast.Assign) and isinstance(s.value, ast.Call) and call_name(s.value) == 'sorted'] if lp else []
+        a = b = None
         if srt and isinstance(srt[0].value.args[0], (ast.List, ast.Tuple)) and len(srt[0].value.args[0].elts) == 2:
             a, b = srt[0].value.args[0].elts
             # first, second = T1[k], T1[k + 1]
@@ -392,10 +496,10 @@ def d5_d6(ctx, rep):
 
 
 def _ancestors(node, stop):
-    p = node._parent
+    p = getattr(node, '_parent', None)
     while p is not None and p is not stop:
         yield p
-        p = p._parent
+        p = getattr(p, '_parent', None)
 
 
 def _assigned_in_loop(lp, name):
@@ -458,8 +562,14 @@ def d7(ctx, rep):
             uses_neg = isinstance(key, ast.Lambda) and any(isinstance(x, ast.Name) and x.id == nname for x in ast.walk(key.body))
             rev = kwarg(c, 'reverse')
             ok_pick = first and uses_neg and (rev is None or const_value(rev) is False)
-        rep.check('D7.polarity', fn, picks[0] if picks else fn.node.name, ok_neg and ok_pick, f'RegularTree.{meth}: picks the pair with maximal |tau| (minimal -|tau|)',
-                  f'RegularTree.{meth}: the greedy choice does not maximise |tau|', construct=f'RegularTree.{meth} choice')
+        recognised = bool(picks) and bool(neg) and nname is not None and any(
+            isinstance(kwarg(c, 'key'), ast.Lambda) and isinstance(c._parent, ast.Subscript) for c in picks)
+        if not recognised and not (picks and neg and not ok_neg):
+            rep.undecided('D7.polarity', fn, picks[0] if picks else fn.node.name, f'RegularTree.{meth}: how the next pair is chosen was not recognised',
+                          construct=f'RegularTree.{meth} choice')
+        else:
+            rep.check('D7.polarity', fn, picks[0] if picks else fn.node.name, ok_neg and ok_pick, f'RegularTree.{meth}: picks the pair with maximal |tau| (minimal -|tau|)',
+                      f'RegularTree.{meth}: the greedy choice does not maximise |tau|', construct=f'RegularTree.{meth} choice')
     st = prog.cls(TREE + 'Tree').methods['_sort_tau_by_y']
     absol = any(isinstance(s, ast.Assign) and isinstance(s.value, ast.Call) and call_name(s.value) in ('abs', 'absolute') for s in walk_no_nested(st.node))
     desc = any(isinstance(x, ast.Subscript) and isinstance(x.slice, ast.Slice) and x.slice.step is not None and const_value(x.slice.step) == -1
@@ -469,9 +579,13 @@ def d7(ctx, rep):
     rep.check('D7.polarity', st, st.node.name, absol and desc and diag, 'sorts by |tau| descending with the variable itself pushed last',
               'the tau ordering used for center / direct trees is not |tau| descending with the diagonal last', construct='_sort_tau_by_y order')
     dfn = prog.cls(TREE + 'DirectTree').methods['_build_first_tree']
-    amax = [c for c in walk_no_nested(dfn.node) if isinstance(c, ast.Call) and call_name(c) in ('argmax', 'argmin')]
-    rep.check('D7.polarity', dfn, amax[0] if amax else dfn.node.name, bool(amax) and all(call_name(c) == 'argmax' for c in amax),
-              'the path is extended by the variable of maximal tau', 'the path is extended by argmin', construct='direct greedy choice')
+    from ..idioms import private_closure as _pc
+    amax = [c for g in _pc(ctx, dfn, prog.cls(TREE + 'DirectTree')) for c in walk_no_nested(g.node) if isinstance(c, ast.Call) and call_name(c) in ('argmax', 'argmin')]
+    if not amax:
+        rep.undecided('D7.polarity', dfn, dfn.node.name, 'how the path is extended was not recognised (no argmax / argmin)', construct='direct greedy choice')
+    else:
+        rep.check('D7.polarity', dfn, amax[0], all(call_name(c) == 'argmax' for c in amax),
+                  'the path is extended by the variable of maximal tau', 'the path is extended by argmin', construct='direct greedy choice')
     fit = prog.method(VINE, 'fit')
     xp = fit.params[1]
     tm = [s for s in walk_no_nested(fit.node) if isinstance(s, ast.Assign) and any(is_self_attr(t, fit.self_name, 'tau_mat') for t in s.targets)]
@@ -485,32 +599,44 @@ def d7(ctx, rep):
 
 
 def d8(ctx, rep):
+    """Every Edge(...) built with a copula carries (copula_type, theta) of the copula select_copula returned in that function."""
     prog = ctx.prog
     n = 0
-    sites = [(TREE + c, m) for c, m in BUILDERS if m == '_build_first_tree'] + [(TREE + 'Edge', 'get_child_edge')]
-    for clsq, meth in sites:
-        fn = prog.cls(clsq).methods[meth]
+    mod = prog.cls(TREE + 'Edge').module
+    for fn in [f for f in prog.functions.values() if f.module is mod]:
+        mk = [c for c in walk_no_nested(fn.node) if isinstance(c, ast.Call) and (prog.resolve(fn.module, c.func) or '').endswith('tree.Edge')
+              and len(c.args) >= 5]
+        if not mk:
+            continue
         sel = [s for s in walk_no_nested(fn.node) if isinstance(s, ast.Assign) and isinstance(s.value, ast.Call)
                and (prog.resolve(fn.module, s.value.func) or '').endswith('select_copula') and isinstance(s.targets[0], ast.Name)]
-        mk = [s for s in walk_no_nested(fn.node) if isinstance(s, ast.Assign) and isinstance(s.value, ast.Call) and (prog.resolve(fn.module, s.value.func) or '').endswith('tree.Edge')]
-        if not sel or not mk:
-            rep.bad('D8.copula', fn, fn.node.name, 'no select_copula result feeds the new edge', construct=f'{fn.cls.name}.{meth}')
-            continue
-        n += 1
-        cv = sel[0].targets[0].id
-        a = mk[0].value.args
-        srcs = []
-        for x in a[3:5]:
-            d = x
-            if isinstance(x, ast.Name):
-                for s in walk_no_nested(fn.node):
-                    if isinstance(s, ast.Assign) and isinstance(s.targets[0], ast.Tuple) and isinstance(s.value, ast.Tuple):
-                        for te, ve in zip(s.targets[0].elts, s.value.elts):
-                            if isinstance(te, ast.Name) and te.id == x.id:
-                                d = ve
-            srcs.append(d)
-        ok = len(srcs) == 2 and isinstance(srcs[0], ast.Attribute) and srcs[0].attr == 'copula_type' and isinstance(srcs[1], ast.Attribute) and srcs[1].attr == 'theta' \
-            and all(isinstance(s.value, ast.Name) and s.value.id == cv for s in srcs)
-        rep.check('D8.copula', fn, mk[0], ok, f'{fn.cls.name}.{meth}: Edge(..., copula.copula_type, copula.theta) of the selected copula',
-                  f'{fn.cls.name}.{meth}: the edge does not carry (copula_type, theta) of the copula selected for it', construct=f'{fn.cls.name}.{meth} copula')
-    rep.floor('D8.copula', 'edge construction sites', n, 4)
+        who = f'{fn.cls.name}.{fn.name}' if fn.cls is not None else fn.name
+        for call in mk:
+            n += 1
+            srcs = []
+            for x in call.args[3:5]:
+                d = x
+                if isinstance(x, ast.Name):
+                    for s in walk_no_nested(fn.node):
+                        if isinstance(s, ast.Assign) and isinstance(s.targets[0], ast.Tuple) and isinstance(s.value, ast.Tuple):
+                            for te, ve in zip(s.targets[0].elts, s.value.elts):
+                                if isinstance(te, ast.Name) and te.id == x.id:
+                                    d = ve
+                        elif isinstance(s, ast.Assign) and isinstance(s.targets[0], ast.Name) and s.targets[0].id == x.id:
+                            d = s.value
+                srcs.append(d)
+            attrs = [s_.attr if isinstance(s_, ast.Attribute) else None for s_ in srcs]
+            bases = {s_.value.id for s_ in srcs if isinstance(s_, ast.Attribute) and isinstance(s_.value, ast.Name)}
+            if not sel:
+                if any(isinstance(s_, ast.Name) and s_.id in fn.params for s_ in srcs) or fn.name == 'from_dict':
+                    continue  # a constructor-like helper / deserialiser: the values come from its caller
+                rep.undecided('D8.copula', fn, call, f'{who}: where the copula of the new edge comes from is not derived', construct=f'{who} copula')
+                continue
+            cv = {s.targets[0].id for s in sel}
+            if attrs == ['copula_type', 'theta'] and len(bases) == 1 and bases <= cv:
+                rep.ok('D8.copula', fn, call, f'{who}: Edge(..., copula.copula_type, copula.theta) of the selected copula', construct=f'{who} copula')
+            elif all(a is not None for a in attrs) and len(bases) >= 1:
+                rep.bad('D8.copula', fn, call, f'{who}: the edge does not carry (copula_type, theta) of the copula selected for it', construct=f'{who} copula')
+            else:
+                rep.undecided('D8.copula', fn, call, f'{who}: the copula arguments of the new edge are not recognised', construct=f'{who} copula')
+    rep.floor('D8.copula', 'edge construction sites', n, 1)
